@@ -78,10 +78,7 @@ impl Block {
         // A linear scan for the same reason as in `content_intersects_with_any`: a change on the
         // tag's first line that lies left of the `<` does not intersect, yet a later change may.
         line_changes.iter().any(|line_change: &LineChange| {
-            Self::intersects_with_line_change_inclusive(
-                &self.start_tag_position_range,
-                line_change,
-            )
+            Self::intersects_with_line_change_inclusive(&self.start_tag_position_range, line_change)
         })
     }
 
